@@ -65,7 +65,8 @@ def run(prop, tier, seed):
     vlib.write_ndjson(obsfile, recs)
     res = vlib.tlc(os.path.join(PROPS, "C07gen.tla"), cfg=os.path.join(PROPS, "C07val.cfg"), env={"OBS": obsfile, "OUTDIR": outdir}, timeout=600)
     v = verdict_of(res, "heap bound")
-    for kind in v["bad"]:
+    bad = v["bad"]
+    for kind in (bad.values() if isinstance(bad, dict) else bad):
         r = [x for x in recs if x["kind"] == kind][0]
         rep.finding("C07|heap-not-bounded|%s" % kind, {"id": kind, "peaks": r}, r, [r],
                     "peak heap grows with the loop length although reachable data is bounded: %s" % json.dumps(r))
@@ -102,7 +103,8 @@ def run(prop, tier, seed):
     if v["checked"] != len(lrecs):
         raise vlib.ToolError("ledger validation incomplete")
     byid = {r["id"]: r for r in lrecs}
-    for hid in v["bad"]:
+    bad = v["bad"]
+    for hid in (bad.values() if isinstance(bad, dict) else bad):
         r = byid[hid]
         leak = [x["live"] for x, op in zip(r["ledger"], r["ops"])]
         rep.finding("C07|ledger-not-zero-after-drop", {"id": hid, "mode": "ledger", "files": {"main.abra": LEDGER_PROGRAM}, "ops": r["ops"]},
